@@ -408,7 +408,7 @@ HARNESSES = [
          canaries=[('bl_exc == 0', 'measured'), ('bl_exc != 0', 'refused')]),
     dict(name='reset_stmt', fn='reset_stmt', replace=['qev_eval_operand'], flags=[], props=['C04', 'C06', 'C12'], timeout=300, bounded_replace=['qev_eval_operand'],
          canaries=[('bl_exc == 0', 'reset'), ('bl_exc != 0', 'refused')]),
-    dict(name='measure_stmt', fn='measure_stmt', replace=['qev_eval_operand'], flags=[], props=['C02', 'C05', 'C06', 'C12'], timeout=600, bounded_replace=['qev_eval_operand'], unwind=10,
+    dict(name='measure_stmt', fn='measure_stmt', replace=['qev_eval_operand'], flags=[], props=['C02', 'C05', 'C06', 'C12', 'C17'], timeout=600, bounded_replace=['qev_eval_operand'], unwind=10,
          canaries=[('bl_exc == 0 && g_total_sim >= 2', 'an array of several qubits was measured'), ('bl_exc != 0', 'refused')]),
 ]
 
